@@ -3,7 +3,7 @@
    mapped to their OCaml counterparts; nat stays the unary datatype).
    Run from this directory: coqc -Q ../coq CffVerif Extract.v *)
 From Coq Require Import Extraction ExtrOcamlBasic.
-From CffVerif Require Import BuildTagModel SchedModel ValidateModel FlowSemModel FlowOpModel FlowOpProofs FlowComplete PrologueModel EmitterModel AliasModel ParallelModel TopoModel SignatureModel FileSelModel.
+From CffVerif Require Import BuildTagModel SchedModel ValidateModel FlowSemModel FlowOpModel FlowOpProofs FlowComplete PrologueModel EmitterModel AliasModel ParallelModel TopoModel SignatureModel FileSelModel ParSigModel.
 
 (* names of FlowOpModel that clash with SchedModel's are re-exported under op_ *)
 Definition op_canonical := FlowOpModel.canonical.
@@ -26,4 +26,5 @@ Extraction "cffmodel.ml" invert eval flip_cff has_cff gen_filename splice
   op_canonical op_run op_valid op_complete op_results op_calls op_fail op_jobs op_deps op_uniq op_prov
   prologue mk_stack deliver requests start par_flow toposort
   compile_function compile_predicate compile_task
-  run_tool exit_nonzero.
+  run_tool exit_nonzero
+  compile_parallel.
